@@ -98,6 +98,25 @@ CLAIMS["C07"] = ("dispatch-table and writer/reader key agreement (constants thro
  "Trusted: go/ssa + go/types. Not covered: which children each clause selects, range/depth arithmetic, visit order as a sequence, subset slicing.",
  "DESIGN.md section 3, C07")
 
+# rules added after the second round of independently seeded faults (and four repaired defects); one clause each,
+# appended to the level text of the property they belong to
+ADDED = {
+ "C01": "Also: the copy path of AssignNode sets up what BeginMap/BeginList sets up before adding entries (begincopy); integer equality in DeepEqual sees no signed/unsigned conversion (intcompare); whoever writes a reflection assembler's slot consults its finish hook (finishhook).",
+ "C02": "Also: no branch of the token consumers judges the content of a text string (strcontent); the token handed to the sink is storage of the Marshal call, through state structs and recursion stages (freshtoken).",
+ "C05": "Also: neither the bytes a bundled decoder assigns nor the reader the link system hands to a decoder come from recycled storage (decoderbytes).",
+ "C07": "Also: stated interests are explored in the stated order (engine); the stop-at condition compares links as wholes (stopat).",
+ "C09": "Also: a stringjoin struct is split without a limit (splitexact).",
+ "C10": "Also: both decoders bound nesting by the same comparison (depth, sibling agreement).",
+ "C11": "Also: no builder makes a node out of its own fields (nodeoutside); a ReadSeeker held in a field is positioned before every read (sharedseeker); the decoder's input is not recycled storage (decoderbytes).",
+ "C12": "Also: the finish-hook rule covers every function that writes an assembler's slot (wrappers for Any positions, shared helpers).",
+ "C15": "Also: the seen-set is never re-created inside a recursive walk (seeninit); start-path comparisons only while not past the start path (startgate).",
+ "C16": "Also: a transform that stores blocks back loads them with Fill, not through the reifying Load (rawload).",
+ "C17": "Also: the escaping functions the package installs treat every key alike (escapeuniform); each stream gets its own writer (streamfresh).",
+ "C18": "Also: every streaming helper of the storage packages commits only over the nil edge of every Write (streamcommit).",
+ "C19": "Also: schema inference memoises per call by Go type before accumulating (infermemo).",
+ "C20": "Also: a value placed in a package-level sync.Map / atomic.Value is not written into afterwards (publish).",
+}
+
 NOT_APPLICABLE = {
  "C13": "concerns the output of running the code generator on arbitrary schemas and the run-time equivalence of two engines; the generator's logic lives in text/template strings, so no typed program exists to analyse before execution (DESIGN.md section 4)",
 }
@@ -108,6 +127,8 @@ def main():
     for pid in ALL:
         if pid in CLAIMS:
             tech, text, note, ref = CLAIMS[pid]
+            if pid in ADDED:
+                text = text + " " + ADDED[pid]
             checks.append({
                 "property_id": pid,
                 "quick_cmd": "./check.sh %s quick" % pid,
